@@ -143,8 +143,9 @@ PROPS = {
     ),
     "C02": dict(
         level="proof",
-        modules=["Exmex.Props.C02", "Exmex.Props.C01Parse"],
-        theorems=["Exmex.C02.evalCloning_eq_split", "Exmex.C02.compile_sound", "Exmex.C02.compile_twice_sound", "Exmex.C01.parse_eval_eq_denote"],
+        modules=["Exmex.Props.C02", "Exmex.Props.C01Parse", "Exmex.Props.C02Deep", "Exmex.Props.C03Parse"],
+        theorems=["Exmex.C02.evalCloning_eq_split", "Exmex.C02.compile_sound", "Exmex.C02.compile_twice_sound", "Exmex.C01.parse_eval_eq_denote",
+                  "Exmex.C02.deep_new_sound", "Exmex.C02.deep_compile_sound", "Exmex.C03.deep_parse_eval_eq_denote"],
         rule="literal-rich random chains (60-90% literals, constants, unary over literals) x random tables: parse, parse_wo_compile, compile() once more, DeepEx::parse, all evaluated on symbolic variables and compared with the documented value modulo re-association of flagged operators; node counts compared with the model (folding must happen where the model folds); non-trivial = at least two binary operators; distinct by request hash",
         kinds=[dict(kind="flat", quick=20000, thorough=1000000, args=["lits"],
                     corr=["wo", "nwo", "c", "nc", "rc", "vars"],
@@ -156,8 +157,9 @@ PROPS = {
     ),
     "C03": dict(
         level="proof",
-        modules=["Exmex.Props.C03", "Exmex.Props.C03ToDeep", "Exmex.Props.C02", "Exmex.Props.C02Deep"],
-        theorems=["Exmex.C03.fromDeep_sound", "Exmex.C03.toDeep_sound", "Exmex.C02.deep_compile_sound"],
+        modules=["Exmex.Props.C03", "Exmex.Props.C03ToDeep", "Exmex.Props.C02", "Exmex.Props.C02Deep", "Exmex.Props.C03Parse"],
+        theorems=["Exmex.C03.fromDeep_sound", "Exmex.C03.toDeep_sound", "Exmex.C02.deep_compile_sound",
+                  "Exmex.C03.deep_parse_eval_eq_denote", "Exmex.C03.flat_deep_parse_agree"],
         rule="random chains x tables x renderings: FlatEx::parse, DeepEx::parse, to_deepex, from_deepex and random conversion histories of length 0..6; variable lists and symbolic values compared with the documented value; operator listings of both forms checked to be sorted, duplicate-free, to contain every operator applied to a variable-dependent operand and nothing absent from the text; non-trivial = at least two binary operators; distinct by request hash",
         kinds=[dict(kind="forms", quick=24000, thorough=800000,
                     corr=["f", "d", "f2d", "d2f", "h", "fvars", "dvars", "f2dvars", "d2fvars", "hvars", "br", "ur", "or", "dbr", "dur", "dor", "dtext", "f2dtext", "htext"],
@@ -171,12 +173,21 @@ PROPS = {
     "C12": dict(
         level="proof",
         modules=["Exmex.Props.C02"],
-        rule="random chains x tables: FlatEx::unparse must be the text parsed; the text printed by DeepEx (parsed, or reached through conversion histories) is re-parsed as a flat expression and must have the same variables and symbolic value; serde_json round trip of flat expressions derived from deep ones; judged for tables whose printed form lexes unambiguously (lexSafe); non-trivial = at least two binary operators; distinct by request hash",
+        rule="random chains x tables: FlatEx::unparse must be the text parsed; the text printed by DeepEx (parsed, or reached through conversion histories) is re-parsed as a flat expression and must have the same variables and symbolic value; serde_json round trip of flat expressions derived from deep ones; calculation histories (operator application, shortcuts, substitution, differentiation): the text printed by every derived expression is re-parsed and compared; judged for tables whose printed form lexes unambiguously (lexSafe); non-trivial = at least two binary operators; distinct by request hash",
         kinds=[dict(kind="forms", quick=20000, thorough=600000,
                     corr=["fu", "dtext", "rt", "rtvars", "htext", "sj", "sjvars"],
                     oracle=[("fu", "stext"), ("rt_nf", "spec_nf", ["lexsafe"]), ("rtvars", "svars", ["lexsafe"]),
                             ("sj_nf", "spec_nf", ["lexsafe"]), ("sjvars", "svars", ["lexsafe"])],
-                    guards=["render", "toks"], nontrivial=flat_nontrivial)],
+                    guards=["render", "toks"], nontrivial=flat_nontrivial),
+               # derived expressions (operator application, shortcuts, substitution, derivatives, also of
+               # nodes carrying several stacked unary operators): the printed text of every result is
+               # re-parsed in the harness and compared on variables and symbolic value
+               dict(kind="hist", quick=6000, thorough=150000, args=["diff"], corr=["pool", "steps"], oracle=[],
+                    oracle_const=[("rtbad", "-")], nontrivial=lambda req, A, B: req.split("\t")[5].count("|") >= 1),
+               dict(kind="hist", quick=4000, thorough=100000, args=["default"], corr=["pool", "steps"], oracle=[],
+                    oracle_const=[("rtbad", "-")], nontrivial=lambda req, A, B: req.split("\t")[5].count("|") >= 1),
+               dict(kind="hist", quick=3000, thorough=100000, args=["subs"], corr=["pool", "steps"], oracle=[],
+                    oracle_const=[("rtbad", "-")], nontrivial=lambda req, A, B: req.split("\t")[5].count("|") >= 1)],
     ),
     "C04": dict(
         level="proof",
@@ -196,13 +207,19 @@ PROPS = {
     ),
     "C10": dict(
         level="proof",
-        modules=["Exmex.Props.C10", "Exmex.Props.C02Deep", "Exmex.Props.C03"],
+        modules=["Exmex.Props.C10", "Exmex.Props.C10Shortcuts", "Exmex.Props.C02Deep", "Exmex.Props.C03"],
         theorems=["Exmex.C10.resetVars_sound", "Exmex.C10.operateBin_sound", "Exmex.C10.operateUnary_sound", "Exmex.C10.operateBin_unknown",
+                  "Exmex.C10.add_sound", "Exmex.C10.mul_sound", "Exmex.C10.div_sound", "Exmex.C10.pow_sound", "Exmex.C10.sub_sound", "Exmex.C10.neg_sound",
+                  "Exmex.C10.operateUnary_yields", "Exmex.Shortcut.compile_folded", "Exmex.Shortcut.operateBin_folded", "Exmex.Shortcut.wrapOK_of_folded",
                   "Exmex.C02.deep_new_sound", "Exmex.C02.deep_compile_sound", "Exmex.C03.fromDeep_sound"],
         level_text=("kernel-checked: operate_bin / operate_unary on deep expressions are homomorphisms (operateBin_sound, operateUnary_sound: sorted union of the "
                     "variables, value = operator applied to the operands' values under every environment; resetVars_sound; unknown names are errors), on top of the deep folding "
-                    "theorems and, for flat expressions, the conversion theorem (fromDeep_sound). Not yet proved: the neutral-element shortcuts of + * / pow and arbitrary "
-                    "histories as one induction; the model of the whole calculation API (union of variables, shortcuts of + * / pow, unknown names) is tied to the code by exact symbolic correspondence on histories, "
+                    "theorems and, for flat expressions, the conversion theorem (fromDeep_sound); the neutral-element shortcuts of + * / pow are sound (add_sound, mul_sound, div_sound, "
+                    "pow_sound: same variables, and the same value as the plain operator at every assignment where the law the shortcut relies on holds for the values involved; "
+                    "0^0 of two literals is the documented error) on expressions in folded form (Folded: what compile/new/operate_* return, compile_folded, operateBin_folded) - "
+                    "is_num looks through single-node wrappers without applying their unary operators, which is unsound on unfolded trees (machine-checked counterexample "
+                    "Proofs/ShortcutCex.lean) but unreachable through the API because every constructor folds. Not yet proved: arbitrary histories as one induction. "
+                    "The model of the whole calculation API (union of variables, shortcuts of + * / pow, unknown names) is tied to the code by exact symbolic correspondence on histories, "
                     "and the implementation is judged against an independent f64 reference (operator applied to the operands' values) at random points"),
         rule="pools of 2-5 parsed expressions with overlapping/disjoint variable sets, histories of 1-6 applications through operate_binary/operate_unary, the overloaded + - * / pow and neg (deep form) incl. unknown names; symbolic data type: exact comparison of value/variables/printed text with the Lean model after every step; f64: value at 3 tame points and variable list against the reference; non-trivial = at least 2 steps; distinct by request hash",
         kinds=[dict(kind="hist", quick=8000, thorough=250000, corr=["pool", "steps"], oracle=[], nontrivial=lambda req, A, B: req.split("\t")[5].count("|") >= 1),
@@ -210,11 +227,15 @@ PROPS = {
     ),
     "C11": dict(
         level="proof",
-        modules=["Exmex.Props.C02Deep", "Exmex.Props.C03"],
-        theorems=["Exmex.C02.deep_compile_sound", "Exmex.C03.fromDeep_sound"],
-        level_text=("subs = node replacement + reset_vars + compile; value preservation of the folding step is the kernel-checked deep_compile_sound; the model of subs "
-                    "(simultaneous replacement, union of names, kept non-occurring variables) is tied to the code by exact symbolic correspondence, and the implementation is "
-                    "judged against an independent f64 reference (substitution by environment) at random points"),
+        modules=["Exmex.Props.C11", "Exmex.Props.C02Deep", "Exmex.Props.C03"],
+        theorems=["Exmex.C11.subs_sound", "Exmex.C11.subs_none", "Exmex.C11.subs_sound_gen", "Exmex.C11.subs_listed", "Exmex.C02.deep_compile_sound", "Exmex.C03.fromDeep_sound"],
+        level_text=("kernel-checked for the deep form: subs_sound (the result lists exactly the sorted, duplicate-free union of the untouched variables and the replacements' variables, "
+                    "and its value under every environment is the value of the original with each replaced variable bound to the value of its replacement - simultaneous, "
+                    "replacements not re-substituted, self-referential replacements included), subs_none (nothing replaced: same variables, same function), subs_listed (the "
+                    "invariant `every group lists only variables of the top list` is re-established, so the theorem applies to repeated substitution); the hypothesis Listed is "
+                    "needed (machine-checked counterexample subs_vars_cex: a nested group listing a stray name) and holds for everything the API returns. For flat expressions "
+                    "subs goes through to_deepex/from_deepex (toDeep_sound, fromDeep_sound). The model of subs is tied to the code by exact symbolic correspondence, and the "
+                    "implementation is judged against an independent f64 reference (substitution by environment) at random points"),
         rule="histories dominated by substitution steps (partial maps incl. self-referential, constant, renaming, swapping replacements; repeated substitution), flat and deep; symbolic: exact comparison with the Lean model; f64: values at tame points and variable lists against the reference; non-trivial = at least 2 steps; distinct by request hash",
         kinds=[dict(kind="hist", quick=8000, thorough=250000, args=["subs"], corr=["pool", "steps"], oracle=[], nontrivial=lambda req, A, B: req.split("\t")[5].count("|") >= 1),
                dict(kind="histf", quick=8000, thorough=250000, args=["subs"], no_model=True, corr=[], oracle_const=[("r", "ok")], nontrivial=lambda req, A, B: req.split("\t")[3].count("|") >= 1)],
@@ -338,8 +359,8 @@ PROPS = {
         modules=["Exmex.Props.C13"],
         theorems=["Exmex.C13.isNumericText_spec", "Exmex.C13.findOps_sound", "Exmex.C13.findOps_longest",
                   "Exmex.C13.name_continued_not_matched", "Exmex.C13.exact_name_matched", "Exmex.C13.sign_role", "Exmex.C13.brace_var"],
-        rule="token streams of tokenize_and_analyze (hook) vs the Lean tokenizer: operator/constant names extended and truncated by identifier and non-identifier characters in several left contexts, sign chains, literal spellings over {0,1,.}, braces with arbitrary content, call fragments, token soup; random tables with prefix-related names; plus well-formed renderings (flat kind) whose token stream must equal the canonical tokens of the chain; non-trivial = text of at least 2 characters; distinct by request hash",
-        kinds=[dict(kind="lex", quick=30000, thorough=600000, corr=["toks"], oracle=[], nontrivial=lambda req, A, B: len(req.split("\t")[3]) >= 4),
+        rule="token streams of tokenize_and_analyze (hook) vs the Lean tokenizer and vs a reference tokenizer written in the harness from the statement (longest eligible name, identifier continuation, literal and brace rules; commas and unclosed braces not judged): operator/constant names extended and truncated by identifier and non-identifier characters in several left contexts, sign chains, literal spellings over {0,1,.}, braces with arbitrary content, call fragments, token soup; random tables with prefix-related names; plus well-formed renderings (flat kind) whose token stream must equal the canonical tokens of the chain; non-trivial = text of at least 2 characters; distinct by request hash",
+        kinds=[dict(kind="lex", quick=30000, thorough=600000, corr=["toks"], oracle=[], oracle_const=[("ref", "ok")], nontrivial=lambda req, A, B: len(req.split("\t")[3]) >= 4),
                dict(kind="flat", quick=8000, thorough=200000, corr=["wo", "vars"], oracle=[("toksimpl", "stoks")],
                     guards=["render"], nontrivial=flat_nontrivial)],
     ),
